@@ -131,3 +131,10 @@ claim(
     "Trusted: the occupancy/queue model in acnverif/props/c19.py; satisfaction judged by the recorded rate ledger with a 1e-6 kWh guard around the 1e-3 threshold.",
     "DESIGN.md 3/C19",
 )
+claim(
+    "C20",
+    "Hypothesis-generated fake servers (page structures, documents, zones, DST-adjacent instants) and queries against a recording transport patched over requests.get/head; oracles: concatenation of pages, parsed request parameters, zoneinfo-based (pytz-independent) offsets, email.utils RFC-1123 rendering, round trip",
+    "Exploration: 1 200 + 1 500 (quick) / 80 000 + 200 000 (thorough) generated pagings and instants: 1-6 pages with empty first/middle/last pages, documents with None / non-date / nested time-series fields in five zones around DST changes, plain and time-window queries with and without time series, count requests, invalid sites. Every session is yielded once in server order with exactly one request per page, parameters and credentials as given, next links followed verbatim, no request for an invalid site; every RFC-1123 field and time-series entry becomes an aware datetime of the same instant with the zone's offset and wall clock; formatting and parsing round-trips to the second.",
+    "Trusted: the fake transport and parameter parsing in acnverif/props/c20.py; zone rules from the interpreter's tz database; filter strings without '&'.",
+    "DESIGN.md 3/C20",
+)
